@@ -14,6 +14,9 @@ package c12
 // called as statements and (a small share) a function with a side effect called as a statement, 3…8 inputs
 // and 3…5 outputs in main (nine or more inputs only in the few programs drawn for the recorded termination
 // finding), Make calls that do not follow the declaration order, `go f(a, b)` with two by-value arguments.
+// Then: a helper `func p(c chan T, v T) T { c <- v; return … }` called inline (no go) from main on a channel whose
+// consumer is a worker started with go, optionally with a second channel declared after the first call and
+// with a second call site on the same channel.
 
 import (
 	"fmt"
@@ -59,6 +62,7 @@ type pgen struct {
 	octal    bool   // some literals are written in Go's legacy octal form (017)
 	permMake bool   // the Make calls of main's outputs/inputs do not follow the declaration order
 	emitter  string // a function that writes an output, called as a statement from main ("" = none)
+	mainLoop func() // emitted in every round of main's endless loop (nil = nothing)
 }
 
 type gfunc struct {
@@ -785,6 +789,9 @@ func (g *pgen) routine(main bool, gidOut []int, gidIn []int, extra func()) {
 		if main && g.emitter != "" {
 			g.emit("%s(%s)", g.emitter, g.expr(1))
 		}
+		if main && g.mainLoop != nil {
+			g.mainLoop()
+		}
 		v := g.vals[rapid.IntRange(0, nreg-1).Draw(g.t, "ctr")]
 		switch g.uni(3, "advance") {
 		case 0:
@@ -846,8 +853,14 @@ func GenProgram(t *rapid.T, o GenOpts, rsize int) (src string, mpm bool) {
 		kind string // plain, chan, value
 	}
 	var workers []worker
+	// a value-returning helper that sends on the channel it is given, called inline (no go) from main, with
+	// consumers started by go: about a sixth of the -mpm programs of the full grammar
+	chanHelper := g.mpm && !o.Faithful && g.pct(18, "chanHelper")
 	if g.mpm {
 		nw := rapid.IntRange(0, 2).Draw(t, "nworkers")
+		if chanHelper && nw > 1 {
+			nw = 1 // (nine output ids in all)
+		}
 		for i := 0; i < nw; i++ {
 			kind := "plain"
 			if !o.Faithful {
@@ -900,6 +913,47 @@ func GenProgram(t *rapid.T, o GenOpts, rsize int) (src string, mpm bool) {
 			g.emit("")
 		}
 	}
+	var helper string
+	var cons []string
+	secondChan, secondSite := false, false
+	if chanHelper {
+		switch k := g.uni(10, "chanHelperKind"); {
+		case k < 3:
+			secondChan = true // a second channel is declared after the first inlined call, and used
+		case k < 6:
+			secondSite = true // the same channel goes to the helper at a second call site
+		case k < 9:
+			secondChan, secondSite = true, true
+		}
+		helper = g.newName("p")
+		g.emit("func %s(c chan %s, v %s) %s {", helper, g.typ, g.typ, g.typ)
+		g.emit("\tc <- v")
+		if g.pct(50, "helperPlain") {
+			g.emit("\treturn v")
+		} else {
+			g.emit("\treturn v + %s", g.lit())
+		}
+		g.emit("}")
+		g.emit("")
+		for i := 0; i < 1+b2i(secondChan); i++ {
+			n := g.newName("w")
+			cons = append(cons, n)
+			g.emit("func %s(c chan %s) {", n, g.typ)
+			g.emit("\tvar outc bondgo.Output")
+			g.emit("\tvar reg_q %s", g.typ)
+			g.emit("\toutc = bondgo.Make(bondgo.Output, %d)", take(1)[0])
+			g.emit("\tfor {")
+			g.emit("\t\treg_q = <-c")
+			if g.pct(50, "consPlain") {
+				g.emit("\t\tbondgo.IOWrite(outc, reg_q)")
+			} else {
+				g.emit("\t\tbondgo.IOWrite(outc, reg_q + %s)", g.lit())
+			}
+			g.emit("\t}")
+			g.emit("}")
+			g.emit("")
+		}
+	}
 	nout := rapid.IntRange(1, 2).Draw(t, "nout")
 	if g.pct(8, "manyout") {
 		nout = 3 + g.uni(3, "nmanyout") // 3 … 5 (nine ids, at most two for the workers, one for the emitter)
@@ -918,6 +972,9 @@ func GenProgram(t *rapid.T, o GenOpts, rsize int) (src string, mpm bool) {
 	g.permMake = g.pct(8, "permMake")
 	if g.permMake && nout < 2 {
 		nout = 2
+	}
+	if nout > len(gids) {
+		nout = len(gids)
 	}
 	var ing []int
 	for i := 0; i < nin; i++ {
@@ -938,6 +995,29 @@ func GenProgram(t *rapid.T, o GenOpts, rsize int) (src string, mpm bool) {
 				g.emit("go %s(%s)", w.name, g.lit())
 			case "value2":
 				g.emit("go %s(%s, %s)", w.name, g.lit(), g.lit())
+			}
+		}
+		if chanHelper {
+			c1, c2 := g.newName("ch"), ""
+			g.emit("var %s chan %s", c1, g.typ)
+			g.emit("go %s(%s)", cons[0], c1)
+			g.emit("%s = %s(%s, %s)", g.pickVal().name, helper, c1, g.expr(1))
+			if secondChan {
+				c2 = g.newName("ch")
+				g.emit("var %s chan %s", c2, g.typ)
+				g.emit("go %s(%s)", cons[1], c2)
+			}
+			g.mainLoop = func() {
+				if secondChan {
+					if g.pct(50, "secondChanThroughHelper") {
+						g.emit("%s = %s(%s, %s)", g.pickVal().name, helper, c2, g.expr(1))
+					} else {
+						g.emit("%s <- %s", c2, g.expr(1))
+					}
+				}
+				if secondSite {
+					g.emit("%s = %s(%s, %s)", g.pickVal().name, helper, c1, g.expr(1))
+				}
 			}
 		}
 	})
